@@ -91,6 +91,11 @@ def run_case(case, reports=False, keep_objects=False):
     # environment files do; the root level starts at Python's default
     root.handlers = [] if cfg.get("logclear") else [mark]
     root.setLevel(logging.WARNING)
+    # (as step modules that log while they are imported do: the loggers are used below the pre-run level before the run
+    #  starts, which makes the logging module remember "disabled" for these levels until a level is set again)
+    for _name in ("verif", "other", "verif.filler"):
+        logging.getLogger(_name).debug("warm-up")
+        logging.getLogger(_name).info("warm-up")
     outdir = tempfile.mkdtemp(prefix="verif-run-") if reports else None
     hookn = [0]
     attempts = {}           # scenario id -> number of before_scenario hook calls so far (= attempt number, autoretry)
